@@ -18,7 +18,8 @@
   "use, somebody changes the terminal, use the same object again".
   A body is a tree: operations, nested contexts, and `raise` (an exception truncates the body there).
   Every operation is atomic: exceptions happen at operation boundaries, plus inside a request at the blocked
-  `select` (`ReqOutcome.keyboardInterrupt`) and in `find_key` after the read (`ReqOutcome.raisesAfterRead`).
+  `select` (`ReqOutcome.keyboardInterrupt`), in `find_key` after the read (`ReqOutcome.raisesAfterRead`) and inside a
+  render at any of its writes (`Op.renderCrash k`: the out_stream's (k+1)-th write raises).
   ASSUMPTIONS (specified here, not proved): tcsetattr(TCSANOW, a) makes tcgetattr return a; F_SETFL sets the
   flags exactly; signal.signal/set_wakeup_fd return the previous value; handlers were installed from Python
   (`getsignal` is not None); __enter__ itself does not raise (a CursorAwareWindow whose cursor query fails inside
@@ -89,6 +90,7 @@ inductive ReqOutcome where
 inductive Op where
   | request (o : ReqOutcome)
   | render
+  | renderCrash (k : Nat)      -- render_to_terminal whose (k+1)-th `self.write` raises (failing out_stream)
   | mkTrigger                  -- event_trigger / scheduled_event_trigger: no OS effect
   | mkThreadsafeTrigger        -- threadsafe_event_trigger: os.pipe()
   | envTty (k : Nat)           -- the environment changes the tty attributes / status flags / SIGINT handler
@@ -196,6 +198,16 @@ def doOp (T : TtyOps A) (main : Bool) (stack : List (Ctx A × Saved A)) (o : Op)
     match innerWindowHide stack with
     | some true => (write w, false)
     | some false => ({ (write w) with cursorVisible := true }, false)        -- hide_cursor ... normal_cursor
+    | none => (w, false)
+  | .renderCrash k =>
+    -- hide_cursor=False: render writes hide_cursor FIRST and normal_cursor LAST; a write that raises in between
+    -- leaves the cursor hidden.  hide_cursor=True: only content writes.  The write that raises writes nothing.
+    match innerWindowHide stack with
+    | some true => (if k = 0 then w else write w, true)
+    | some false =>
+      (if k = 0 then w
+       else if k = 1 then { w with cursorVisible := false }
+       else { (write w) with cursorVisible := false }, true)
     | none => (w, false)
   | .mkTrigger => (w, false)
   | .mkThreadsafeTrigger =>
